@@ -34,13 +34,18 @@ pub fn ed_verify(pk: &[u8], msg: &[u8], sig: &[u8]) -> bool {
     let s: [u8; 64] = sig.try_into().unwrap();
     ed25519::verify(msg, &p, &s)
 }
+// no structure check here: the library derives from whatever key it holds (a derived key is never re-verified)
+fn xprv_unverified(xprv: &[u8]) -> XPrv {
+    let sk: [u8; 64] = xprv[0..64].try_into().unwrap();
+    let cc: [u8; 32] = xprv[64..96].try_into().unwrap();
+    assert!(xprv.len() == 96);
+    XPrv::from_extended_and_chaincode(&sk, &cc)
+}
 pub fn xprv_public(xprv: &[u8]) -> Vec<u8> {
-    let b: [u8; 96] = xprv.try_into().unwrap();
-    XPrv::from_bytes_verified(b).unwrap().public().as_ref().to_vec()
+    xprv_unverified(xprv).public().as_ref().to_vec()
 }
 pub fn xprv_derive(xprv: &[u8], index: u32) -> Vec<u8> {
-    let b: [u8; 96] = xprv.try_into().unwrap();
-    XPrv::from_bytes_verified(b).unwrap().derive(DerivationScheme::V2, index).as_ref().to_vec()
+    xprv_unverified(xprv).derive(DerivationScheme::V2, index).as_ref().to_vec()
 }
 pub fn xpub_derive(xpub: &[u8], index: u32) -> Option<Vec<u8>> {
     XPub::from_slice(xpub).unwrap().derive(DerivationScheme::V2, index).ok().map(|p| p.as_ref().to_vec())
